@@ -383,3 +383,79 @@ Proof.
   pose proof (export_exact (SCont (mkMeta [] [] true [] None) kids) (DCont data) false st Hst eq_refl Hw) as H.
   cbn [empty_node] in H. rewrite H. reflexivity.
 Qed.
+
+(** ** idempotence *)
+(** exporting an exported tree changes nothing (choice-free schemas: every kid is visible) *)
+Lemma guard_nil_selected kids sc : guard_selected [] kids sc = true.
+Proof. reflexivity. Qed.
+
+Lemma visit_kids_nth vk new kids sc : forall ks i j d,
+  nth j (visit_kids vk new kids sc ks i) d =
+  match nth_error ks j with
+  | None => d
+  | Some k =>
+      if negb (guard_selected (sguard k) kids sc) then None
+      else match k with
+           | SLeaf _ _ _ dflt => match nth (i + j) sc None with Some x => Some x | None => if new then option_map DLeaf dflt else None end
+           | _ => match nth (i + j) sc None with Some sd => Some (vk k sd) | None => None end
+           end
+  end.
+Proof.
+  induction ks as [|k ks IH]; intros i j d.
+  - destruct j; reflexivity.
+  - destruct j as [|j]; cbn [visit_kids nth nth_error].
+    + rewrite Nat.add_0_r. reflexivity.
+    + rewrite IH. replace (S i + j) with (i + S j) by lia. reflexivity.
+Qed.
+
+Lemma visit_kids_ext vk new kids sc sc' : forall ks i,
+  (forall j k, nth_error ks j = Some k ->
+     guard_selected (sguard k) kids sc = guard_selected (sguard k) kids sc' /\ nth (i + j) sc None = nth (i + j) sc' None) ->
+  visit_kids vk new kids sc ks i = visit_kids vk new kids sc' ks i.
+Proof.
+  induction ks as [|k ks IH]; intros i H; [reflexivity|]. cbn [visit_kids].
+  destruct (H 0 k eq_refl) as [Hg Hn]. rewrite Nat.add_0_r in Hn. rewrite Hg, Hn. f_equal.
+  apply IH. intros j k' Hk. specialize (H (S j) k' Hk). replace (S i + j) with (i + S j) by lia. exact H.
+Qed.
+
+Fixpoint cfree (s : snode) : bool :=
+  match s with
+  | SLeaf m _ _ _ => match nm_guard m with [] => true | _ => false end
+  | SCont m kids => forallb (fun k => match sguard k with [] => cfree k | _ => false end) kids
+  | SList m _ row => cfree row
+  end.
+
+Lemma visit_kids_length vk new kids sc : forall ks i, length (visit_kids vk new kids sc ks i) = length ks.
+Proof. induction ks as [|k ks IH]; intros i; cbn; [reflexivity|now rewrite IH]. Qed.
+
+(** THEOREM: on a schema without choices, exporting an exported tree gives the same tree *)
+Theorem visit_idem : forall s, cfree s = true -> forall d n, visit n s (visit n s d) = visit n s d.
+Proof.
+  apply (snode_ind3 (fun s => cfree s = true -> forall d n, visit n s (visit n s d) = visit n s d));
+    [intros m ty il dflt | intros m kids IHk | intros m keys row IHr]; intros Hc d n.
+  - destruct d; reflexivity.
+  - destruct d as [v|sc|rows]; try reflexivity. cbn [visit]. f_equal.
+    set (vk := fun k sd => visit true k sd).
+    set (sc' := visit_kids vk n kids sc kids 0).
+    apply (nth_ext _ _ None None).
+    + unfold sc'. now rewrite !visit_kids_length.
+    + intros j Hj. rewrite visit_kids_length in Hj.
+      destruct (nth_error kids j) as [k|] eqn:Ek; [|apply nth_error_None in Ek; lia].
+      cbn [cfree] in Hc. rewrite forallb_forall in Hc. pose proof (Hc k (nth_error_In _ _ Ek)) as Hk.
+      destruct (sguard k) eqn:Eg; [|discriminate].
+      rewrite visit_kids_nth, Ek, Eg. cbn [guard_selected negb Nat.add].
+      unfold sc' at 2. rewrite visit_kids_nth, Ek, Eg. cbn [guard_selected negb Nat.add].
+      assert (Hsc' : nth j sc' None =
+                match k with
+                | SLeaf _ _ _ dflt => match nth j sc None with Some x => Some x | None => if n then option_map DLeaf dflt else None end
+                | _ => match nth j sc None with Some sd => Some (vk k sd) | None => None end
+                end).
+      { unfold sc'. rewrite visit_kids_nth, Ek, Eg. reflexivity. }
+      rewrite Forall_forall in IHk. pose proof (IHk k (nth_error_In _ _ Ek) Hk) as IH.
+      destruct k as [km ty il dflt|km kk|km keys row]; rewrite Hsc'.
+      * destruct (nth j sc None); [reflexivity|]. destruct n; [destruct dflt|]; reflexivity.
+      * destruct (nth j sc None) as [sd|]; [|reflexivity]. unfold vk. now rewrite IH.
+      * destruct (nth j sc None) as [sd|]; [|reflexivity]. unfold vk. now rewrite IH.
+  - destruct d as [v|sc|rows]; try reflexivity. cbn [visit]. f_equal. rewrite map_map.
+    apply map_ext. intros r. apply IHr. exact Hc.
+Qed.
